@@ -256,7 +256,11 @@ def execute(case):
     kw = {}
     if rmax is not None:
         kw["rmax"] = list(rmax) if isinstance(rmax, list) else rmax
-    y = lib(lambda: x.round(eps, **kw))
+    # eps as the library is likely to receive it from a computation: numpy float, 0-d tensor (e.g. tol / x.norm())
+    eform = ["float", "float", "np", "t0d"][case["seed"] % 4] if "seed" in case else "float"
+    ck.label("eps_form:" + eform)
+    eps_arg = {"float": eps, "np": np.float64(eps), "t0d": torch.tensor(eps, dtype=torch.float64)}[eform]
+    y = lib(lambda: x.round(eps_arg, **kw))
 
     # operand intact
     ck.require(x.cores is lst and [id(c) for c in x.cores] == ids, "operand_cores_rebound", "round() re-bound the operand's cores")
